@@ -420,6 +420,67 @@ pub fn expected_summary(items: &[Item]) -> serde_json::Value {
     })
 }
 
+/// ([passed, skipped, failed, retried] of the steps line, of the scenarios line, (parsing, hook) errors)
+/// as the summary text states them; a line that cannot be read gives `None`.
+#[allow(clippy::type_complexity)]
+fn parse_summary_numbers(s: &str) -> (Option<[usize; 4]>, Option<[usize; 4]>, (usize, usize)) {
+    fn stats(l: &str) -> Option<[usize; 4]> {
+        let mut out = [0usize; 4];
+        let total: usize = l.split_whitespace().next()?.parse().ok()?;
+        if let Some(open) = l.find('(') {
+            let inner = l[open + 1..].strip_suffix(')')?;
+            let (body, retr) = match inner.find("with ") {
+                Some(p) => (inner[..p].trim_end(), Some(&inner[p + 5..])),
+                None => (inner, None),
+            };
+            for part in body.split(", ").filter(|p| !p.is_empty()) {
+                let mut it = part.split(' ');
+                let n: usize = it.next()?.parse().ok()?;
+                match it.next()? {
+                    "passed" => out[0] = n,
+                    "skipped" => out[1] = n,
+                    "failed" => out[2] = n,
+                    _ => return None,
+                }
+            }
+            if let Some(r) = retr {
+                let mut it = r.split(' ');
+                out[3] = it.next()?.parse().ok()?;
+                if !matches!(it.next()?, "retry" | "retries") {
+                    return None;
+                }
+            }
+        }
+        (total == out[0] + out[1] + out[2]).then_some(out)
+    }
+    let mut steps = None;
+    let mut scen = None;
+    let mut errs = (0, 0);
+    for l in s.lines().map(str::trim) {
+        let mut it = l.split_whitespace();
+        let (Some(n), Some(w)) = (it.next(), it.next()) else { continue };
+        if n.parse::<usize>().is_err() {
+            continue;
+        }
+        if w.starts_with("scenario") {
+            scen = stats(l);
+        } else if w.starts_with("step") {
+            steps = stats(l);
+        } else if w == "parsing" || w == "hook" {
+            for part in l.split(", ") {
+                let mut it = part.split(' ');
+                let (Some(n), Some(k)) = (it.next().and_then(|n| n.parse::<usize>().ok()), it.next()) else { continue };
+                match k {
+                    "parsing" => errs.0 = n,
+                    "hook" => errs.1 = n,
+                    _ => {}
+                }
+            }
+        }
+    }
+    (steps, scen, errs)
+}
+
 fn parse_summary(s: &str) -> (Option<usize>, Option<usize>) {
     let mut feats = None;
     let mut rules = None;
@@ -524,6 +585,19 @@ fn c12_inner(items: &[Item], t: &mut Tally, idx: u64, label: &str, primary: bool
         if writes.len() != 1 || fin_pos.map(|p| p + 1) != writes.first().copied() {
             v.push(("summary-write".into(), format!("summary written {} time(s) at log positions {writes:?}; run-Finished reached the inner writer at {fin_pos:?}", writes.len())));
         } else if let Got::Write { val, .. } = &log[writes[0]] {
+            // the text states the same numbers as the getters
+            let (txt_steps, txt_scen, txt_errs) = parse_summary_numbers(val);
+            let st = [got.steps[0], got.steps[1], got.steps[2], got.steps[3]];
+            if txt_steps != Some(st) {
+                v.push(("text-differs-from-getters".into(), format!("steps line of the written summary reads {txt_steps:?} [passed, skipped, failed, retried], the getters say {st:?}: {val:?}")));
+            }
+            let scn = [got.scenarios[0], got.scenarios[1], got.scenarios[2], extra[3]];
+            if txt_scen != Some(scn) {
+                v.push(("text-differs-from-getters".into(), format!("scenarios line of the written summary reads {txt_scen:?} [passed, skipped, failed, retried], the getters say {scn:?}: {val:?}")));
+            }
+            if txt_errs != (got.parsing, got.hooks) {
+                v.push(("text-differs-from-getters".into(), format!("written summary states {txt_errs:?} (parsing, hook) errors, the getters say ({}, {}): {val:?}", got.parsing, got.hooks)));
+            }
             let (f, r) = parse_summary(val);
             got.features = f.unwrap_or(0);
             got.rules = r.unwrap_or(0);
@@ -697,7 +771,7 @@ pub fn c13(items: &[Item], t: &mut Tally, idx: u64, rng: &mut Rng) {
 
     // ---- Repeat (skipped / failed / custom) ----
     let fin = input.iter().position(|r| r.ev == Ev::Finished);
-    for mode in 0..3 {
+    for mode in 0..5 {
         let (rec, sh) = RecW::new();
         let out: Vec<Rec> = match mode {
             0 => {
@@ -710,17 +784,30 @@ pub fn c13(items: &[Item], t: &mut Tally, idx: u64, rng: &mut Rng) {
                 feed_rec(&mut w, items, &cli::Empty, &[&sh]);
                 sh.events().into_iter().map(|e| e.1).collect()
             }
-            _ => {
+            2 => {
                 let mut w = rec.repeat_if(|ev: &Item| matches!(ev, Ok(e) if matches!(e.value, cucumber::event::Cucumber::Feature(..)) && token_of(ev).is_some_and(|t| t % 3 == 0)));
                 feed_rec(&mut w, items, &cli::Empty, &[&sh]);
                 sh.events().into_iter().map(|e| e.1).collect()
             }
+            // custom filters that select run-level events too, run-Finished itself included
+            3 => {
+                let mut w = rec.repeat_if(|ev: &Item| matches!(ev, Ok(e) if matches!(e.value, cucumber::event::Cucumber::Finished)));
+                feed_rec(&mut w, items, &cli::Empty, &[&sh]);
+                sh.events().into_iter().map(|e| e.1).collect()
+            }
+            _ => {
+                let mut w = rec.repeat_if(|_: &Item| true);
+                feed_rec(&mut w, items, &cli::Empty, &[&sh]);
+                sh.events().into_iter().map(|e| e.1).collect()
+            }
         };
-        let name = ["repeat_skipped", "repeat_failed", "repeat_if"][mode];
+        let name = ["repeat_skipped", "repeat_failed", "repeat_if", "repeat_if", "repeat_if"][mode];
         let pred = |i: usize, r: &Rec| match mode {
             0 => is_skipped(r),
             1 => is_failedish(r),
-            _ => r.f.is_some() && token_of(&items[i]).is_some_and(|t| t % 3 == 0),
+            2 => r.f.is_some() && token_of(&items[i]).is_some_and(|t| t % 3 == 0),
+            3 => r.ev == Ev::Finished,
+            _ => true,
         };
         // expected: input, and right after (each) run-Finished the matches seen so far, once
         let mut expect: Vec<usize> = Vec::new();
